@@ -232,6 +232,13 @@ def allocIds : Nat → Nat → List Nat
   | _, 0 => []
   | c, n + 1 => (allocId c).1 :: allocIds (allocId c).2 n
 
+/-- The ids handed out for any sequence of timer creations in one process, `true` = through the legacy capability
+    (`notify_*_async`, lib.rs:114,143), `false` = through the command API (`command::Time::notify_*`, command.rs:54,127):
+    both call `get_timer_id`, so the API does not matter to the counter. -/
+def allocSeq : Nat → List Bool → List (Bool × Nat)
+  | _, [] => []
+  | c, api :: rest => (api, (allocId c).1) :: allocSeq (allocId c).2 rest
+
 /-! ### several timers, command API (each timer has its own Command) -/
 
 inductive Host where
@@ -397,5 +404,110 @@ def lfinal : LWorld → List (LAct × Nat) → LWorld
 
 def mkLWorld (counter : Nat) (kinds : List Kind) : LWorld :=
   { counter := counter, cleared := [], timers := kinds.map fun k => { kind := k } }
+
+/-! ### both APIs in one app, one process (host `mixed`)
+
+`command::Time::notify_after/notify_at` (command.rs:54,127) and the legacy `Time::notify_*_async` (lib.rs:114,143) both
+call `get_timer_id()` (lib.rs:26-29): ONE counter.  Position `j` of a mixed case is either a command-API timer (created by
+its start action, its Command returned from `update` and hosted by the Core from then on) or a legacy timer. -/
+
+inductive MAct where
+  | start | startClear | fire (s : Shape) | dropReq | clear | dropHandle | answerClr (s : Shape) | dropClr | tick
+deriving DecidableEq, Repr
+
+/-- the answer to a Clear request an action letter stands for -/
+def clrRespOf (k : Kind) (id : Nat) : Shape → Resp
+  | .good => .cleared id
+  | .foreignId => .cleared (id + FOREIGN)
+  | .otherKind => respOf k id .good
+
+/-- what an action means to an existing command-API timer (start on an existing timer: a no-op event) -/
+def toAct (t : Timer) : MAct → Act
+  | .start | .startClear | .tick => .tick
+  | .fire s => .resolveReq (respOf t.kind t.id s)
+  | .dropReq => .dropReq
+  | .clear => .clear
+  | .dropHandle => .dropHandle
+  | .answerClr s => .resolveClr (clrRespOf t.kind t.id s)
+  | .dropClr => .dropClr
+
+/-- … and to a legacy timer (the harness never addresses dropHandle / dropClr to one) -/
+def toLAct : MAct → LAct
+  | .start => .start
+  | .startClear => .startClear
+  | .fire s => .resolveReq s
+  | .dropReq => .dropReq
+  | .clear => .clear
+  | .answerClr _ => .resolveClr
+  | _ => .tick
+
+/-- a command-API position: the constructor it will use and, once its start action ran, its timer -/
+structure CSlot where
+  kind : Kind
+  timer : Option Timer := none
+deriving DecidableEq, Repr
+
+structure MWorld where
+  /-- the shared counter, CLEARED_TIMER_IDS and the legacy timers (at command positions: a legacy timer nobody ever addresses) -/
+  lw : LWorld
+  /-- `none` at legacy positions -/
+  cmds : List (Option CSlot)
+deriving DecidableEq, Repr
+
+/-- every step ends with the Core run to quiescence: every existing command is run; `a` is what happens to command `i` before -/
+def cmdStepAll (cmds : List (Option CSlot)) (i : Nat) (a : Act) (idle : Res := .na) : List (Option CSlot × Out) :=
+  cmds.mapIdx fun j s =>
+    match s with
+    | some slot =>
+      match slot.timer with
+      | some t => let r := step t (if j == i then a else .tick) true; (some { slot with timer := some r.1 }, r.2)
+      -- a command that does not exist yet: nothing to act on (`idle`: what the caller sees)
+      | none => (s, if j == i then { res := idle } else {})
+    | none => (none, {})
+
+def mstep (w : MWorld) (a : MAct) (i : Nat) : MWorld × List Out :=
+  match w.cmds[i]? with
+  | some (some slot) =>
+    match slot.timer with
+    | none =>
+      if a = .start ∨ a = .startClear then
+        -- `Time::notify_after/at` in `update`: the id comes from the shared counter; `startClear`: `handle.clear()`
+        -- before the command is returned; then the Core polls the new command
+        let t : Timer := { kind := slot.kind, id := (allocId w.lw.counter).1 }
+        let rs := cmdStepAll (w.cmds.set i (some { slot with timer := some t })) i (if a = .startClear then .clear else .tick)
+        ({ lw := { w.lw with counter := (allocId w.lw.counter).2 }, cmds := rs.map (·.1) }, rs.map (·.2))
+      else
+        let rs := cmdStepAll w.cmds i .tick (if a = .tick then .unit else .na)
+        ({ w with cmds := rs.map (·.1) }, rs.map (·.2))
+    | some t =>
+      let rs := cmdStepAll w.cmds i (toAct t a)
+      ({ w with cmds := rs.map (·.1) }, rs.map (·.2))
+  | some none =>
+    let r := lstep w.lw (toLAct a) i
+    let rs := cmdStepAll w.cmds i .tick
+    ({ lw := r.1, cmds := rs.map (·.1) }, (rs.map (·.2)).set i r.2)
+  | none =>
+    let rs := cmdStepAll w.cmds i .tick
+    ({ w with cmds := rs.map (·.1) }, rs.map (·.2))
+
+def mrun : MWorld → List (MAct × Nat) → List (List Out)
+  | _, [] => []
+  | w, (a, i) :: rest => let r := mstep w a i; r.2 :: mrun r.1 rest
+
+def mfinal : MWorld → List (MAct × Nat) → MWorld
+  | w, [] => w
+  | w, (a, i) :: rest => mfinal (mstep w a i).1 rest
+
+/-- `kinds`: per position, (is it a legacy timer?, constructor) -/
+def mkMWorld (counter : Nat) (kinds : List (Bool × Kind)) : MWorld :=
+  { lw := mkLWorld counter (kinds.map (·.2))
+    cmds := kinds.map fun lk => if lk.1 then none else some { kind := lk.2 } }
+
+/-- the id of the timer at position `j`, whichever API made it -/
+def MWorld.idAt (w : MWorld) (j : Nat) : Option Nat :=
+  match w.cmds[j]? with
+  | some (some slot) => slot.timer.map (·.id)
+  | some none => (w.lw.timers[j]?).bind (·.id)
+  | none => none
 
 end M.Timer
